@@ -13,7 +13,8 @@
    with a tolerance, outside the proof).
 
    Fragment: SELECT sel.. FROM t [WHERE e] [ORDER BY k..] [LIMIT n] [OFFSET m]
-     expressions: columns, constants, checked i64 + - * / %, = <> < <= > >= on equal types,
+     expressions: columns, constants, checked i64 + - * / %, = <> < <= > >= on equal types and on
+                  integer vs float (exact mathematical comparison),
                   AND OR NOT (three-valued), IS [NOT] NULL, LIKE
      select items: expressions, COUNT/SUM/MIN/MAX(e), AVG(e) = SUM(e) / COUNT(e) as the parser
                   defines it; a select list with an aggregate groups by all plain items
@@ -146,6 +147,32 @@ Definition same_type (a b : val) : bool :=
   | _, _ => false
   end.
 
+(* exact comparison of an integer with a double given by its bit pattern (the engine's overloads
+   (Integer, Float) / (Float, Integer) cast the integer to f64, which is exact for |z| <= 2^53; the
+   specification compares the mathematical values).  A finite double is (-1)^s * m * 2^e with
+   m = frac (+ 2^52 when normal), e = max(expbits, 1) - 1075.  NaN is greatest (OrderedFloat). *)
+Definition cmp_int_float (z : Z) (b : N) : comparison :=
+  if float_is_nan b then Lt
+  else
+    let neg := (sign_bit <=? b)%N in
+    let absb := N.land b abs_mask in
+    let expbits := N.shiftr absb 52 in
+    let frac := N.land absb 4503599627370495%N in           (* 2^52 - 1 *)
+    if (expbits =? 2047)%N then (if neg then Gt else Lt)       (* +-infinity *)
+    else
+      let m := Z.of_N (if (expbits =? 0)%N then frac else (frac + 4503599627370496)%N) in
+      let e := Z.of_N (if (expbits =? 0)%N then 1%N else expbits) - 1075 in
+      let sm := if neg then - m else m in
+      if 0 <=? e then Z.compare z (sm * 2 ^ e) else Z.compare (z * 2 ^ (- e)) sm.
+
+(* comparison of two non-NULL values of comparable types *)
+Definition cmp_values (a b : val) : option comparison :=
+  match a, b with
+  | VInt x, VFloat y => Some (cmp_int_float x y)
+  | VFloat x, VInt y => Some (CompOpp (cmp_int_float y x))
+  | _, _ => if same_type a b then Some (val_cmp a b) else None
+  end.
+
 (* LocustDB's LIKE pattern language on bytes: '%' any sequence, '_' any one byte, "%%" a literal
    percent, "\_" a literal underscore.  37 = '%', 95 = '_', 92 = '\'.
    [like_match fuel pattern s]: fuel = length pattern + length s + 1 suffices. *)
@@ -211,7 +238,10 @@ Fixpoint eval_expr (row : list val) (e : expr) : eres :=
           | EVal b =>
               match a, b with
               | VNull, _ | _, VNull => EVal VNull          (* comparison with NULL is not true *)
-              | _, _ => if same_type a b then EVal (VBool (cmp_holds c (val_cmp a b))) else ETypeErr
+              | _, _ => match cmp_values a b with
+                        | Some r => EVal (VBool (cmp_holds c r))
+                        | None => ETypeErr
+                        end
               end
           | err => err
           end
